@@ -38,7 +38,8 @@ type spec struct {
 	cancel     string // "", "cancel", "expire"
 	latePush   bool   // canceller pushes one more task after cancelling
 	wait       bool   // main calls Wait and marks its return
-	polls      int    // Status() calls by a poller thread
+	polls      int    // Status() calls by each poller thread
+	pollers    int    // number of poller threads (default 1 when polls > 0)
 	release    bool   // a releaser thread releases pinUntilRelease tasks
 	events     bool   // order task entry against "Wait returned" through the monitor
 	monitorRun bool   // count simultaneously running tasks through a monitor atomic
@@ -164,10 +165,19 @@ func body(sp *spec) func(c *vsched.Ctx) {
 				}
 			})
 		}
-		if sp.polls > 0 {
-			vsched.GoNamed("poller", func() {
+		np := sp.pollers
+		if np == 0 && sp.polls > 0 {
+			np = 1
+		}
+		for pi := 0; pi < np; pi++ {
+			vsched.GoNamed(fmt.Sprintf("poller%d", pi), func() {
+				var first *tasklane.LaneStatus
+				var firstCopy tasklane.LaneStatus
 				for i := 0; i < sp.polls; i++ {
 					st := h.tl.Status()
+					if i == 0 {
+						first, firstCopy = st, *st
+					}
 					h.polled = append(h.polled, st.PendingTask)
 					if st.LaneSize != sp.L || st.QueueSize != sp.Q {
 						vsched.Fail(fmt.Sprintf("C14: Status() reports lane/queue size %d/%d, want %d/%d", st.LaneSize, st.QueueSize, sp.L, sp.Q))
@@ -175,6 +185,11 @@ func body(sp *spec) func(c *vsched.Ctx) {
 					if st.PendingTask < 0 || st.PendingTask > sp.L*(sp.Q+1) {
 						vsched.Fail(fmt.Sprintf("C14: Status().PendingTask=%d outside [0,%d]", st.PendingTask, sp.L*(sp.Q+1)))
 					}
+				}
+				// a report is a snapshot: it must not change after it was returned
+				vsched.Yield("poller-keeps-report")
+				if first != nil && (first.PendingTask != firstCopy.PendingTask || first.LastPanic != firstCopy.LastPanic) {
+					vsched.Fail(fmt.Sprintf("C14: a report returned by Status() changed afterwards: PendingTask %d -> %d, LastPanic %v -> %v", firstCopy.PendingTask, first.PendingTask, firstCopy.LastPanic, first.LastPanic))
 				}
 			})
 		}
@@ -255,6 +270,22 @@ func (h *harness) atEnd(c *vsched.Ctx) string {
 		}
 	}
 	_ = inflightQueued
+	if cancelled {
+		if sp.latePush {
+			if !h.lateDone {
+				return "C07: PushTask begun after cancellation did not return"
+			}
+			if h.lateErr == nil || (h.lateErr != vctx.Canceled && h.lateErr != vctx.DeadlineExceeded) {
+				return fmt.Sprintf("C07: PushTask begun after cancellation returned %v, want the context's error", h.lateErr)
+			}
+			if h.lateErr != vctx.RawErr(h.ctx) {
+				return fmt.Sprintf("C07: PushTask begun after cancellation returned %v, context error is %v", h.lateErr, vctx.RawErr(h.ctx))
+			}
+			if h.lateTask.enters != 0 {
+				return "C07: a task pushed after cancellation was started"
+			}
+		}
+	}
 	st := h.tl.Status() // oracle context: raw, consistent snapshot
 	pendingModel := -1
 	// count tasks sitting in the lane (buffers or held by a queue goroutine) = handed to the lane and not entered
@@ -323,20 +354,6 @@ func (h *harness) atEnd(c *vsched.Ctx) string {
 				return fmt.Sprintf("C07: producer%d still blocked in PushTask after the context ended (%s)", i, p.PendingOp())
 			}
 		}
-		if sp.latePush {
-			if !h.lateDone {
-				return "C07: PushTask begun after cancellation did not return"
-			}
-			if h.lateErr == nil || (h.lateErr != vctx.Canceled && h.lateErr != vctx.DeadlineExceeded) {
-				return fmt.Sprintf("C07: PushTask begun after cancellation returned %v, want the context's error", h.lateErr)
-			}
-			if h.lateErr != vctx.RawErr(h.ctx) {
-				return fmt.Sprintf("C07: PushTask begun after cancellation returned %v, context error is %v", h.lateErr, vctx.RawErr(h.ctx))
-			}
-			if h.lateTask.enters != 0 {
-				return "C07: a task pushed after cancellation was started"
-			}
-		}
 		// C07: Wait returns once every started task has returned; nothing of the lane stays behind
 		if insideBody == 0 {
 			if laneAlive != 0 {
@@ -381,6 +398,9 @@ func main() {
 	s6a := &spec{L: 1, Q: 1, tasks: T(2), producers: [][]push{{{0, 0}, {1, 0}}}, cancel: "expire", wait: true, events: true, latePush: true}
 	s7 := &spec{L: 2, Q: 1, tasks: []taskSpec{{panics: "boom"}, {panics: errBoom}, {}}, producers: [][]push{{{0, 0}, {1, 1}, {2, 0}}}, polls: 2}
 	s7b := &spec{L: 1, Q: 1, tasks: []taskSpec{{panics: 42}, {}, {panics: boomStruct{1, 2}}}, producers: [][]push{{{0, 0}, {1, 0}, {2, 0}}}, polls: 2}
+	s7c := &spec{L: 1, Q: 0, tasks: []taskSpec{{panics: "boom"}, {panics: errBoom}}, producers: [][]push{{{0, 0}, {1, 0}}}, polls: 2, pollers: 2}
+	s9 := &spec{L: 1, Q: 1, tasks: []taskSpec{{panics: "boom"}, {yields: 1}, {yields: 1}}, producers: [][]push{{{0, 0}, {1, 0}, {2, 0}}}, monitorRun: true}
+	s9b := &spec{L: 2, Q: 1, tasks: []taskSpec{{panics: 42}, {yields: 1}, {yields: 1}, {yields: 1}}, producers: [][]push{{{0, 0}, {1, 0}, {2, 1}, {3, 0}}}, monitorRun: true}
 	s8 := &spec{L: 2, Q: 1, tasks: []taskSpec{{pin: pinForever}, {pin: pinForever}, {}, {}, {}}, producers: [][]push{{{0, 0}, {1, 1}, {2, 0}, {3, 1}, {4, 0}}}, polls: 1}
 
 	P := func(b ...int) sdrive.Plan { return sdrive.Plan{Bounds: b} }          // preemption bounds, in-process
@@ -420,6 +440,12 @@ func main() {
 			Quick: D(0, 1, 2, 3), Thorough: DS(16, 0, 2, 4, 6, 8), Body: body(s7)},
 		{Name: "s7b-L1Q1-panics", Props: []string{"C14"}, About: "one worker, panic / normal / panic, Status polled twice",
 			Quick: PS(8, b012...), Thorough: PS(16, unb...), Body: body(s7b)},
+		{Name: "s7c-L1Q0-two-pollers", Props: []string{"C14"}, About: "two tasks panicking with different dynamic types, two goroutines polling Status() twice each and keeping their first report",
+			Quick: PS(8, b012...), Thorough: PS(16, unb...), Body: body(s7c)},
+		{Name: "s9-L1Q1-panic-then-load", Props: []string{"C08", "C14"}, About: "a task panics, then more tasks than workers are pending: still at most laneSize run at once",
+			Quick: P(unb...), Body: body(s9)},
+		{Name: "s9b-L2Q1-panic-then-load", Props: []string{"C08"}, About: "as s9 with two lanes",
+			Quick: D(0, 1, 2, 3), Thorough: DS(16, 0, 2, 4, 6), Body: body(s9b)},
 		{Name: "s8-L2Q1-stable", Props: []string{"C14"}, About: "both workers pinned, three tasks queued: pending count compared exactly at rest",
 			Quick: D(0, 1, 2, 3), Thorough: DS(16, 0, 2, 4, 6, 8), Body: body(s8)},
 	}
